@@ -217,6 +217,49 @@ class C07World(WalletWorld):
             w.violation('output_n_not_sequential', sig, 'output_n after bumpfee: %s' % ns)
         w.probe('bumpfee_checked')
 
+    def on_bumped_pending(self, wi, h, t, old_fee, old_outs):
+        """Fee bump of a not yet broadcast transaction: same clauses as for a created transaction."""
+        w = self.w
+        sig = {'api': 'bumpfee', 'stage': 'bumped_unsent'}
+        if not (t.fee > old_fee):
+            w.violation('bumpfee_not_higher', sig, 'fee %r -> %r' % (old_fee, t.fee))
+        ok, raw = self.observe(lambda: t.raw())
+        if not ok:
+            w.violation('transaction_does_not_serialize', sig, repr(raw))
+        rt = parse_tx(bytes(raw))
+        ops = [(v.prev_txid_hex(), v.vout) for v in rt.vin]
+        if len(set(ops)) != len(ops):
+            w.violation('duplicate_input', sig, 'after bumpfee the transaction spends %s' % ops)
+        chain_in = 0
+        for op in ops:
+            if op not in self.chain.outs:
+                w.violation('input_not_on_chain', sig, 'input %s:%d' % (op[0][:16], op[1]))
+            chain_in += self.chain.outs[op][1]
+            if op in wi.acked_spent and op not in self.bump_old_inputs:
+                w.violation('input_already_spent_by_wallet', sig, 'added input %s:%d was consumed by acknowledged send %s' %
+                            (op[0][:16], op[1], wi.acked_spent[op][0][:16]))
+        if chain_in != sum(o.value for o in rt.vout) + t.fee:
+            w.violation('value_not_conserved', sig, 'chain value of inputs %d != outputs %d + fee %d' %
+                        (chain_in, sum(o.value for o in rt.vout), t.fee))
+        new_outs = [(o.script_pubkey, o.value) for o in rt.vout]
+        for spk, val, is_change in old_outs:
+            if is_change:
+                continue
+            if (spk, val) in new_outs:
+                new_outs.remove((spk, val))
+            else:
+                w.violation('recipient_not_paid_exactly', sig, 'after bumpfee %s no longer receives %d' %
+                            (rcodec.script_to_address(spk, self.network), val))
+        own = self.change_addresses(wi, h, own=True)
+        for spk, val in new_outs:
+            a = rcodec.script_to_address(spk, self.network)
+            if a not in own:
+                w.violation('extra_output_not_to_change_address', sig, 'after bumpfee: %d to %s' % (val, a))
+        ns = [o.output_n for o in t.outputs]
+        if ns != list(range(len(ns))):
+            w.violation('output_n_not_sequential', sig, 'output_n after bumpfee: %s' % ns)
+        w.probe('bumpfee_unsent_checked')
+
     def finish(self):
         pass
 
